@@ -369,6 +369,13 @@ func bulkDeleteTargets(live []uint32, pattern int, a, b int) []uint32 {
 				out = append(out, off)
 			}
 		}
+	case 7: // every row of the highest populated block (the block stays allocated but empty)
+		top := live[len(live)-1] >> 14
+		for _, off := range live {
+			if off>>14 == top {
+				out = append(out, off)
+			}
+		}
 	case 6: // the tail: last k rows
 		k := a%130 + 1
 		if k > len(live) {
@@ -385,7 +392,7 @@ func (mc *Machine) ActBulkDelete(t *rapid.T) {
 	if len(live) == 0 {
 		t.Skip("nothing to delete")
 	}
-	pattern := rapid.IntRange(0, 6).Draw(t, "pattern")
+	pattern := rapid.IntRange(0, 7).Draw(t, "pattern")
 	a, b := rapid.IntRange(0, 1<<20).Draw(t, "a"), rapid.IntRange(0, 1<<20).Draw(t, "b")
 	targets := bulkDeleteTargets(live, pattern, a, b)
 	mc.logf("bulkDelete pattern=%d a=%d b=%d (%d of %d rows)", pattern, a, b, len(targets), len(live))
